@@ -76,9 +76,14 @@ GEN_TEXT = (" Generator protocol (DESIGN.md 3.5): generator forms suspended / in
             "with the reference in each situation.")
 EXTRA_TEXT = {
     "C10": " SPLICE-ORDER: the stand-in pickler emits a byte stream (real tuples and frozensets saved by transcriptions of pickle's save_tuple / save_frozenset, also on reference cycles - defects D20, D21, repaired; payloads of 64 KiB written straight to the file); the oracle is what an unpickler makes of the stream (kinds, order, sharing).",
-    "C11": " BUILD-SCALE: a key listing n neighbours, n keys (every third row empty, its key named by nobody), an n x n matrix, at the sizes the tree names and a default size.",
+    "C03": " Histories also hold explicit.unlink beside a half-detached link: the call raises and leaves the graph as it was, or completes - nothing in between.",
+    "C04": " The table is also asked right after a different query on the same vertex with Vertex.NEIGHBOR_CACHING on.",
+    "C09": " RELATION-LIFETIME: throw-away filters (closures, and callable objects of a class defining __eq__ without __hash__) whose address is handed on to the next filter.",
+    "C11": " BUILD-SCALE: a key listing n neighbours, n keys (every third row empty, its key named by nobody), an n x n matrix, at the sizes the tree names and a default size. Builds with caching on and a warm memo on every vertex; rows naming a non-vertex (only complete links of listed pairs exist afterwards, a later build reads back normally).",
+    "C12": " Also with the memo warm and the flag then switched off; what a result shares with internal state is read before the next call is made.",
+    "C13": " FILTER-LIFETIME: a dropped filter's address handed on to the next, well-behaved one (closures, unhashable callable objects).",
     "C15": " Variants: network_kwargs directed=True, user attributes named like class-level names of the link classes, pyvis' own assertions compiled away (python -O).",
-    "C20": " randgraph is also evaluated at the counts the tree itself names (size constants harvested from its source).",
+    "C20": " randgraph is also evaluated at the counts the tree itself names (size constants harvested from its source). REPRODUCIBLE: seed, build, seed again, build again in one interpreter state with the random module modelled as one stream (randint, sample, choice, getrandbits draw from it).",
 }
 
 REASONS_PENDING = "check under construction in this build phase (see DESIGN.md section 5 for the planned static rule)"
